@@ -428,13 +428,6 @@ impl<T> Bucket<T> {
         }
     }
 
-    /// Acquires the underlying non-null pointer `*mut T` to `data`.
-    #[inline]
-    fn as_non_null(&self) -> NonNull<T> {
-        // SAFETY: `self.ptr` is already a `NonNull`
-        unsafe { NonNull::new_unchecked(self.as_ptr()) }
-    }
-
     /// Create a new [`Bucket`] that is offset from the `self` by the given
     /// `offset`. The pointer calculation is performed by calculating the
     /// offset from `self` pointer (convenience for `self.ptr.as_ptr().sub(offset)`).
@@ -1250,7 +1243,7 @@ impl<T, A: Allocator> RawTable<T, A> {
             // All bucket are distinct from all previous buckets so we're clear to return the result
             // of the lookup.
 
-            ptrs.map(|ptr| ptr.map(|mut ptr| ptr.as_mut()))
+            ptrs.map(|ptr| ptr.map(|ptr| Bucket { ptr }.as_mut()))
         }
     }
 
@@ -1260,7 +1253,7 @@ impl<T, A: Allocator> RawTable<T, A> {
         eq: impl FnMut(usize, &T) -> bool,
     ) -> [Option<&'_ mut T>; N] {
         let ptrs = self.get_many_mut_pointers(hashes, eq);
-        ptrs.map(|ptr| ptr.map(|mut ptr| ptr.as_mut()))
+        ptrs.map(|ptr| ptr.map(|ptr| Bucket { ptr }.as_mut()))
     }
 
     unsafe fn get_many_mut_pointers<const N: usize>(
@@ -1269,8 +1262,10 @@ impl<T, A: Allocator> RawTable<T, A> {
         mut eq: impl FnMut(usize, &T) -> bool,
     ) -> [Option<NonNull<T>>; N] {
         array::from_fn(|i| {
-            self.find(hashes[i], |k| eq(i, k))
-                .map(|cur| cur.as_non_null())
+            // The bucket's own pointer, not `as_ptr()`: for a zero-sized `T` the latter is the
+            // same dangling pointer for every bucket, while `Bucket::ptr` encodes the index,
+            // so distinct buckets always compare unequal in the duplicate check.
+            self.find(hashes[i], |k| eq(i, k)).map(|cur| cur.ptr)
         })
     }
 
